@@ -40,6 +40,10 @@ func AddMeta(d *Design, r *lp.Rng, both bool) {
 		if kind == "method" && r.Intn(3) == 0 {
 			m = append(m, []string{"openapi:operationId", "{service}.{method}#{routeIndex}"})
 		}
+		if kind == "method" && i%3 == 1 {
+			// an extension whose value is the JSON literal null
+			m = append(m, []string{"openapi:extension:x-nothing", "null"})
+		}
 		ne := r.Intn(3)
 		for e := 0; e < ne; e++ {
 			m = append(m, []string{fmt.Sprintf("openapi:extension:x-%s-%d", kind, e), fmt.Sprintf(`{"n":%d,"k":"%s"}`, e, kind)})
